@@ -215,6 +215,24 @@ def propagate_new_aliases(tree: ast.Module, module: str, known_locals: dict[str,
                     return None  # containers / literals bound to a name are data the function builds up, not a sub-expression with a name
                 return nm
 
+            def renamed_result(blk) -> bool:
+                # `t = <anything>` / `x = t` right after it, t new and read nowhere else: `x = <anything>` (also for awaited calls: nothing moves)
+                for i, st in enumerate(blk[:-1]):
+                    nx = blk[i + 1]
+                    if isinstance(st, ast.Assign) and len(st.targets) == 1 and isinstance(st.targets[0], ast.Name) and isinstance(nx, ast.Assign) and len(nx.targets) == 1 \
+                            and isinstance(nx.targets[0], ast.Name) and isinstance(nx.value, ast.Name) and nx.value.id == st.targets[0].id:
+                        t = st.targets[0].id
+                        if t in known or t in params or t.startswith('__inl_') or t in nested_names or len(stores.get(t, [])) != 1 or len(loads.get(t, [])) != 1 or nx.targets[0].id == t:
+                            continue
+                        st.targets[0] = nx.targets[0]
+                        blk[i + 1] = ast.copy_location(ast.Pass(), nx)
+                        log.append(f'{module}:{qn} new single-use local `{t}` that only hands a result on to `{nx.targets[0].id}`: bound directly')
+                        return True
+                return False
+
+            if any(renamed_result(blk) for blk in _blocks(fn)):
+                changed = True
+                continue
             for blk in _blocks(fn):
                 for i, st in enumerate(blk):
                     nm = is_temp_def(st)
@@ -380,8 +398,13 @@ def propagate_new_aliases(tree: ast.Module, module: str, known_locals: dict[str,
         for st in body:
             if isinstance(st, FuncNode):
                 qn = f'{prefix}{st.name}'
-                for n in [st] + [n for n in _own(st) if isinstance(n, FuncNode)]:
-                    nq = qn if n is st else f'{qn}.{n.name}'
+                def all_levels(fn_, q_):
+                    yield fn_, q_
+                    for n_ in _own(fn_):
+                        if isinstance(n_, FuncNode):
+                            yield from all_levels(n_, f'{q_}.{n_.name}')
+
+                for n, nq in all_levels(st, qn):
                     _temps(n, nq)
                     _pure_locals(n, nq)
                     _filtered_loops(n, nq)
